@@ -19,7 +19,7 @@ ASSUMPTIONS = [
 EXCLUDE = ()
 PROFILES = [
     S.profile(max_tasks=3, horizon=(2, 5), p_no_horizon=5, p_resources=55, task_constraints=(0, 2), optional_rules=(0, 1), resource_constraints=(0, 1), buffers=(0, 1), p_work_amount=20, exclude=EXCLUDE),
-    S.profile(max_tasks=4, horizon=(3, 7), p_resources=70, task_constraints=(0, 3), optional_rules=(0, 1), resource_constraints=(0, 2), buffers=(0, 1), fol=(0, 1), optional_constraints=15, indicators=(0, 1), p_work_amount=20, exclude=EXCLUDE),
+    S.profile(max_tasks=4, horizon=(3, 7), p_resources=70, task_constraints=(0, 3), optional_rules=(0, 1), resource_constraints=(0, 2), buffers=(0, 1), fol=(0, 1), optional_constraints=15, indicators=(0, 2), indicator_constraints=30, p_work_amount=20, exclude=EXCLUDE),
 ]
 
 
